@@ -161,6 +161,9 @@ CustomCases == { Case("custom", [bg EXCEPT !.custom = cu], self, "ed25519", "ed2
 Algs == {"ed25519", "ecdsa-p256-sha256", "ecdsa-p384-sha384", "rsa-sha256", "rsa-sha384", "rsa-sha512"}
 AlgCases == { Case("alg", [Bg2 EXCEPT !.isCa = IF self THEN CaU ELSE NoCa], self, sa, ia, Kid("sha256"), "keypair") :
                 sa \in Algs, ia \in Algs, self \in Bool }
+            (* the subject's key given as a parsed SubjectPublicKeyInfo / taken from a parsed request, for every key type *)
+            \cup { Case("alg", [Bg2 EXCEPT !.isCa = NoCa], FALSE, sa, ia, Kid("sha256"), src) :
+                     sa \in Algs, ia \in {"ed25519", "ecdsa-p384-sha384"}, src \in {"spki", "csr"} }
 
 (* automatic serial: classes of the first two octets of SHA-256(subject public key); the harness searches *)
 (* a public key whose digest starts with exactly these two octets                                       *)
